@@ -203,6 +203,9 @@ def r4(ctx, F):
                 bb, t = calls_[0]
                 a = R.call_args(bb)
                 schema = [x.split('::')[-1] for x in t['func']['generic_args'] if 'FunctionComposition' in x]
+                if not schema and len(a) > 3 and a[3][0] == 'agg' and isinstance(a[3][1], tuple):
+                    # the call sits in a helper that is generic over the schema: the schema is the value handed down
+                    schema = [a[3][1][1]]
                 okargs = a[0] == ('param', 'other') and a[1] == ('param', 'self') and any(is_call(x, 'Tree::terminal_indices') and x[2][0] == ('field', ('param', 'self'), 'tree') for x in walk(a[2]))
                 want = 'FunctionCompositionInfeasible' if PR else 'FunctionComposition'
                 if okargs and schema == [want]:
